@@ -88,6 +88,6 @@ Fixpoint frames (fuel : nat) (s : bytes) : list bytes :=
       let size := be_dec (firstn 4 (skipn 4 s)) in
       if size <? 0 then [] else
       if zlen s - 8 <? size then [] else
-      firstn (8 + Z.to_nat size) s :: frames f (skipn (8 + Z.to_nat size) s)
+      firstn (Z.to_nat (8 + size)) s :: frames f (skipn (Z.to_nat (8 + size)) s)
   end.
 Definition frames_stream (s : bytes) : list bytes := frames (S (length s)) s.
